@@ -24,6 +24,7 @@ def tag_menu(level):
         lambda: [TL(['@d', '@d'])],
         lambda: [TL([x + '1', '@d'])],
         lambda: [TL([x + '1']), TL(['@d', x + '2'], pre=[M.C('# c')])],
+        lambda: [TL(['@' + level + '-<a>', '@<a>'])],          # tag text that spells a placeholder of the examples table: tags are not substituted
     ]
 
 
